@@ -89,6 +89,11 @@ func NewStructMethodNode(container Node, method *types.Func) StructMethodNode {
 	}
 }
 
+// Method returns the method that the node calls.
+func (n StructMethodNode) Method() *types.Func {
+	return n.method
+}
+
 // ObjName returns the ident of the leaf element.
 // For example, it returns "Status" in both of dst.User.Status or dst.User.Status().
 func (n StructMethodNode) ObjName() string {
